@@ -461,4 +461,39 @@ theorem remove_then_get_index_witness :
 example : ((Value.obj (.cons [97] (.obj (.cons [98] (.int 1) .nil)) .nil)).remove
     [.field [97], .field [98]] true).2 = .obj .nil := by decide
 
+/-! (2b) the shifting insert keeps negative positions -/
+
+open VList in
+/-- when a negative index before the start prepends (class `D_shift`), every existing element keeps
+    its NEGATIVE position. -/
+theorem shift_keeps_negative (a : VList) (k j : Nat) (x : Value) (hk : a.length < k)
+    (hj : 0 < j) (hjl : j ≤ a.length) :
+    (a.insertIdx (-(k : Int)) x).getIdx (-(j : Int)) = a.getIdx (-(j : Int)) := by
+  have hk0 : 0 < k := by omega
+  rw [insertIdx_neg_gt a k x hk0 hk, getIdx_neg_in a j hj hjl]
+  have hlen : (VList.cons x ((nulls (k - 1 - a.length)).append a)).length = k := by
+    simp only [VList.length, length_append, length_nulls]; omega
+  rw [getIdx_neg_in _ j hj (by omega), hlen]
+  obtain ⟨m, hm⟩ : ∃ m, k - j = m + 1 := ⟨k - j - 1, by omega⟩
+  rw [hm]
+  simp only [VList.getN]
+  rw [getN_append_right _ _ _ (by rw [length_nulls]; omega), length_nulls]
+  congr 1
+  omega
+
+/-- (2b) frame law inside the class `D_shift`: on a top-level array a prepending insert at `[-k]`
+    leaves every existing `[-j]` (`j ≤ len`) unchanged. -/
+theorem frame_shift_negative (v : Value) (p q : Path) (x : Value) (h : shiftNeg v p q = true) :
+    (insertOpt (some v) p x).get q = v.get q := by
+  unfold shiftNeg at h
+  split at h
+  · rename_i a i j
+    simp only [Bool.and_eq_true, decide_eq_true_eq] at h
+    obtain ⟨⟨⟨hi, hlen⟩, hj⟩, hjl⟩ := h
+    obtain ⟨k, rfl⟩ : ∃ k : Nat, i = -(k : Int) := ⟨(-i).toNat, by omega⟩
+    obtain ⟨l, rfl⟩ : ∃ l : Nat, j = -(l : Int) := ⟨(-j).toNat, by omega⟩
+    simp only [insertOpt, asList, Value.get, getOpt]
+    exact shift_keeps_negative a k l x (by omega) (by omega) (by omega)
+  · cases h
+
 end C18
